@@ -218,6 +218,63 @@ func c08(r *engine.Report, p *engine.Program) {
 	// R4 ERROR replies
 	errorReplyRules(r, p, rcs)
 
+	// R4b a command that produces no reply object and no error must have talked to the client itself
+	for _, impl := range p.Implementations("controlsvc", "ControlCommand", "ControlFunc") {
+		if engine.IsMock(impl) {
+			continue
+		}
+		cfoParam := impl.Params[len(impl.Params)-1]
+		usesCfo := func(in ssa.Instruction) bool {
+			ci, ok := in.(ssa.CallInstruction)
+			return ok && ci.Common().IsInvoke() && isParamValue(ci.Common().Value, cfoParam) && ci.Common().Method.Name() != "RemoteAddr"
+		}
+		bad := engine.Reach(impl, nil, nil, usesCfo, func(in ssa.Instruction) bool {
+			ret, ok := in.(*ssa.Return)
+			return ok && len(ret.Results) == 2 && engine.IsNilConst(ret.Results[0]) && engine.IsNilConst(ret.Results[1])
+		})
+		r.Check("R4-error-reply", engine.FuncName(impl)+": (nil, nil) only after the command itself used the connection", impl.Pos(), bad == nil,
+			"every 'return nil, nil' is preceded on its path by a ControlFuncOperations call (stream/bridge/close): the session never falls silent", "this command can return neither a reply nor an error without having written to the client: RunControlSession then sends nothing and the client blocks instead of getting an ERROR line")
+	}
+	// R6 background retry: the failure callback and the action are mutually exclusive
+	if gcr := p.Func("(*workceptor.remoteUnit).getConnectionAndRun"); gcr != nil {
+		okExcl := true
+		found := false
+		for _, an := range gcr.AnonFuncs {
+			var act, fail []ssa.Instruction
+			for _, ci := range engine.CallsIn(an) {
+				v := ci.Common().Value
+				if u, ok := v.(*ssa.UnOp); ok {
+					if fv, ok := u.X.(*ssa.FreeVar); ok {
+						switch fv.Name() {
+						case "action":
+							act = append(act, ci)
+						case "failure":
+							fail = append(fail, ci)
+						}
+					}
+				}
+				if fv, ok := v.(*ssa.FreeVar); ok {
+					switch fv.Name() {
+					case "action":
+						act = append(act, ci)
+					case "failure":
+						fail = append(fail, ci)
+					}
+				}
+			}
+			if len(act) > 0 && len(fail) > 0 {
+				found = true
+				for _, a := range act {
+					if engine.Reach(an, a, nil, nil, func(in ssa.Instruction) bool { return isOneOf(in, fail) }) != nil {
+						okExcl = false
+					}
+				}
+			}
+		}
+		r.Check("R1-panic", "getConnectionAndRun: the failure callback never runs after the action ran", gcr.Pos(), found && okExcl,
+			"failure() is reachable only on the path where no connection was obtained; the action accounts for its own completion", "failure() can run after the action already ran: both call WorkerDone on a one-worker job, and the second call panics ('negative WaitGroup counter') in a background goroutine, killing the node")
+	}
+
 	// R5 no client I/O with a shared lock held
 	nIO := 0
 	for _, fn := range fns {
